@@ -6,6 +6,7 @@ import (
 	"encoding/hex"
 	"errors"
 	"fmt"
+	"os"
 	"runtime"
 	"strings"
 	"sync"
@@ -375,10 +376,10 @@ const (
 	// MsgDone it managed to queue reaches the wire within microseconds. Waiting
 	// this long for MsgDone / the end of the connection is far beyond 20x that.
 	c21PostStopBound = 3 * time.Second
-	c21ShortGrace    = 150 * time.Millisecond // only for further hits of an already listed known finding
+	c21ShortGrace    = 50 * time.Millisecond // only for further hits of an already listed known finding
 	// Stop() normally takes ~250 ms (its own send-queue wait) and at most ~5.3 s
 	// (its internal busy-lock timeout); both are timers, not work.
-	c21StopBound = 20 * time.Second
+	c21StopBound = 15 * time.Second
 )
 
 func TestC21(t *testing.T) {
@@ -395,7 +396,11 @@ func TestC21(t *testing.T) {
 		cs := genC21(rt)
 		pc, ps := genPlan(rt, "client"), genPlan(rt, "server")
 		cs.ClientPlan, cs.ServerPlan = planDesc(pc), planDesc(ps)
+		t0 := time.Now()
 		runC21(rt, rec, &cs, pc, ps)
+		if os.Getenv("C21_TIMING") != "" {
+			fmt.Printf("TIMING %.3f n=%d ntn=%v limit=%d raw=%v stop=%d cb=%v pc=%s ps=%s\n", time.Since(t0).Seconds(), len(cs.History), cs.NtN, cs.Limit, cs.Raw, cs.StopAfter, cs.CbDelayUs, cs.ClientPlan, cs.ServerPlan)
+		}
 	})
 }
 
